@@ -2,6 +2,7 @@ SPECIFICATION Spec
 CONSTANTS Consts = {"a", "b", "c"}
  MaxOps = 3
  Queries = FALSE
+ ChainMode = FALSE
  EmitAll = TRUE
 
 INVARIANT TestCorrect
